@@ -227,7 +227,7 @@ func ensureCritical(value any, headers map[any]any) error {
 		if !canInt(label) && !canTstr(label) {
 			return fmt.Errorf("require int / tstr type, got '%T': %v", label, label)
 		}
-		if _, ok := headers[label]; !ok {
+		if !hasLabel(headers, label) {
 			return fmt.Errorf("missing critical header: %v", label)
 		}
 	}
